@@ -84,7 +84,7 @@ def run(ctx):
                 hs.append(out[0])
                 origin.append((v["seed"], v["hist"]))
     else:
-        count = 48 if ctx.tier == "quick" else 480
+        count = 48 if ctx.tier == "quick" else 240
         hs = ctx.run_json([binp, "c20", str(count)])
         origin = [(ctx.seed, i) for i in range(len(hs))]
     if not model:
